@@ -206,6 +206,9 @@ class CompoundQuery(qcore.Query):
 
         if len(subs) == 1:
             m = subs[0].matcher(searcher, context)
+            # The query's own boost still applies
+            if self.boost != 1.0 and m.is_active():
+                m = matching.WrappingMatcher(m, self.boost)
         else:
             m = self._matcher(subs, searcher, context)
         return m
